@@ -138,12 +138,39 @@ pub fn programs(tier: Tier) -> Vec<(Program, Mode)> {
             }
         }
     }
+    // entries stamped by a writer whose clock runs an hour ahead of ours (a shared directory, a clock stepped
+    // back): whatever the timestamps say, nobody waits for the clock to catch up
+    {
+        use crate::ops::{Op, Pop};
+        use crate::props::e1::{api, planted};
+        use crate::world::{Size, Val};
+        let k = e1::key1();
+        let j = e1::key2();
+        let ahead = -(1440 + 60); // planted ages are minutes before (now - 1 day)
+        for (front, cfgv, loc) in [
+            ("plain", e1::plain_cfg(2), "k".to_string()),
+            ("sharded", e1::sharded_cfg(4), format!("{}/k", crate::ops::shard_dir_name(0))),
+            ("stack", e1::stack_cfg(2), "k".to_string()),
+        ] {
+            let pre = vec![planted(&loc, Val::new(23, Size::One), false, ahead), planted(&loc.replace('k', "x2"), Val::new(24, Size::One), false, 9)];
+            let mut add = |name: &str, threads: Vec<Vec<POp>>| {
+                v.push((
+                    Program { name: format!("skew-{}-{}", front, name), cfg: cfgv.clone(), pre: pre.clone(), threads: e1::own_handles(threads, true), create_write_dir: true },
+                    Mode::Bounded(1),
+                ));
+            };
+            add("get-touch|set", vec![vec![api(Op::Get(k.clone())), api(Op::Touch(k.clone()))], vec![api(Op::Set(j.clone(), e1::wval(1, 0, Size::One)))]]);
+            add("put-ensure|get", vec![vec![api(Op::Put(k.clone(), e1::wval(0, 0, Size::One))), api(Op::Ensure(k.clone(), Pop::Value(e1::wval(0, 1, Size::One))))], vec![api(Op::Get(k.clone()))]]);
+            add("set-backjump-get", vec![vec![api(Op::Set(j.clone(), e1::wval(0, 0, Size::One))), POp::ClockJump(-3600), api(Op::Get(j.clone())), api(Op::Touch(j.clone()))]]);
+        }
+    }
     v
 }
 
 pub fn run(tier: Tier, shard: Shard, rep: &mut Report) {
     rep.rule = format!(
-        "C05's programs (maintenance on every write, adversary, missing directories) and C04's curated programs; all schedules with <= 2 \
+        "C05's programs (maintenance on every write, adversary, missing directories), C04's curated programs, writers suspended for two hours, and \
+         lookups/writes on entries stamped an hour ahead of the local clock (or after the clock stepped back an hour); all schedules with <= 2 \
          preemptions (thorough: 3 for selected programs), which contain, for every schedule prefix with one preemption fewer, the run of \
          each participant alone to the end of its operation while every peer stays frozen at its current filesystem call. Monitors per \
          execution: own filesystem steps of each operation <= {} + {} x (directory entries it listed); no flock/lockf/fcntl lock; no \
